@@ -118,7 +118,17 @@ HasRecT(T) == LET RECURSIVE has(_)
               IN has(T)
 \* (also for unions: "all leaves in order"; the library groups them by union content -- finding F73 -- but never
 \*  loses or duplicates one)
-VFlattenAll(v, T) == IF HasRecT(T) \/ HasStrT(T) THEN Unspec ELSE Ok(VList(Leaves(v)))
+\* with records the leaves come field by field: all of field 1 (over ALL records of the node), then field 2, ...
+RECURSIVE LeavesT(_, _)
+LeavesT(es, T) ==           \* es: a sequence of elements of type T
+  LET live == Select(es, LAMBDA e : ~IsNone(e)) IN
+  CASE T.k = "opt" -> LeavesT(live, T.x)
+    [] T.k \in {"var", "reg"} -> LeavesT(Flat([k \in 1..Len(live) |-> live[k].xs]), T.x)
+    [] T.k = "rec" -> Flat([j \in 1..Len(T.xs) |-> LeavesT([k \in 1..Len(live) |-> live[k].vs[j]], T.xs[j])])
+    [] OTHER -> live
+VFlattenAll(v, T) == IF HasStrT(T) THEN Unspec
+                     ELSE IF HasUnion(T) THEN (IF HasRecT(T) THEN Unspec ELSE Ok(VList(Leaves(v))))
+                     ELSE Ok(VList(LeavesT(v.xs, T)))
 VReduceAll(v, T, r) ==
   IF HasRecOrUnion(T) \/ HasStrT(T) THEN Unspec
   ELSE LET ls == Leaves(v)  g == [k \in 1..Len(ls) |-> [i |-> k - 1, v |-> ls[k]]] IN
